@@ -44,6 +44,8 @@ struct Resolver {
     /// Long names of base units, which are defined along with the
     /// base unit itself.
     long_names: BTreeMap<Id, Id>,
+    /// Chemical symbols of substances, for names that are formulas.
+    symbols: BTreeMap<String, Id>,
     sorted: Vec<Id>,
     unmarked: BTreeSet<Id>,
     temp_marks: BTreeSet<Id>,
@@ -107,6 +109,34 @@ impl Resolver {
                 let name = &Rc::new(name[0..name.len() - 1].to_owned());
                 self.lookup_with_prefix(name, context)
             }
+            || self.lookup_formula(name)
+    }
+
+    /// A name that is a chemical formula (CO2) depends on the
+    /// substances of its elements.
+    fn lookup_formula(&mut self, name: &str) -> bool {
+        let mut elements = vec![];
+        let mut chars = name.chars().peekable();
+        while let Some(c) = chars.next() {
+            match c {
+                'A'..='Z' => {
+                    let mut symbol = c.to_string();
+                    if let Some('a'..='z') = chars.peek().cloned() {
+                        symbol.push(chars.next().unwrap());
+                    }
+                    match self.symbols.get(&symbol) {
+                        Some(id) => elements.push(id.clone()),
+                        None => return false,
+                    }
+                }
+                '0'..='9' => (),
+                _ => return false,
+            }
+        }
+        for id in &elements {
+            self.visit(id);
+        }
+        !elements.is_empty()
     }
 
     fn eval(&mut self, expr: &Expr, context: Namespace) {
@@ -302,6 +332,7 @@ pub(crate) fn load_defs(ctx: &mut Context, defs: Defs) -> Vec<String> {
         interned: BTreeSet::new(),
         input: BTreeMap::new(),
         long_names: BTreeMap::new(),
+        symbols: BTreeMap::new(),
         sorted: vec![],
         unmarked: BTreeSet::new(),
         temp_marks: BTreeSet::new(),
@@ -364,6 +395,13 @@ pub(crate) fn load_defs(ctx: &mut Context, defs: Defs) -> Vec<String> {
             if id.namespace == Namespace::Unit {
                 resolver.categories.insert(id.clone(), category);
             }
+        }
+        if let Def::Substance {
+            symbol: Some(ref symbol),
+            ..
+        } = *def
+        {
+            resolver.symbols.insert(symbol.clone(), id.clone());
         }
         if resolver.input.insert(id.clone(), def).is_some() {
             let namespace = match id.namespace {
